@@ -7,6 +7,7 @@
      target_terminates      over a finite set of nodes (a document) a fuel above their number is never exhausted: the traversal terminates
                             on every document, cyclic identifier references included, with a set, ValueError or the resolver's exception
      through_*              the wrappers are transparent: entering an assert / let / parenthesis / with / lambda hands on to its body and nothing else
+     target_fuel_irrelevant more fuel never changes an outcome that was reached (so the fuel a caller picks above the bound is immaterial)
      wrappers_transparent   any stack of assert / let / parenthesis wrappers around a set, of any height: the set itself is returned
      not_a_set_refused      a node of any other class is refused with ValueError *)
 From Coq Require Import List Bool Arith Lia.
@@ -200,6 +201,68 @@ Proof.
   lia.
 Qed.
 
+
+(* ---- more fuel never changes an outcome that was reached ---- *)
+Definition mono {A} (m m' : TargetGen.M N store A) : Prop := forall s r s', m s = (r, s') -> r <> RFuel -> m' s = (r, s').
+Lemma mono_refl {A} (m : TargetGen.M N store A) : mono m m.
+Proof. intros s r s' E _. exact E. Qed.
+Lemma mono_bind {A B} (m m' : TargetGen.M N store A) (f f' : A -> TargetGen.M N store B) :
+  mono m m' -> (forall a, mono (f a) (f' a)) -> mono (TargetGen.bind N store m f) (TargetGen.bind N store m' f').
+Proof.
+  intros Hm Hf s r s' E Hr. unfold TargetGen.bind in *. destruct (m s) as [r1 s1] eqn:E1.
+  destruct r1 as [a| | |]; try (inversion E; subst; rewrite (Hm _ _ _ E1) by discriminate; reflexivity).
+  - rewrite (Hm _ _ _ E1) by discriminate. apply (Hf a _ _ _ E Hr).
+  - inversion E; subst. contradiction.
+Qed.
+Lemma mono_try {A} (m m' h h' : TargetGen.M N store A) : mono m m' -> mono h h' -> mono (TargetGen.try_valueerror N store m h) (TargetGen.try_valueerror N store m' h').
+Proof.
+  intros Hm Hh s r s' E Hr. unfold TargetGen.try_valueerror in *. destruct (m s) as [r1 s1] eqn:E1.
+  destruct r1 as [a| | |]; try (inversion E; subst; rewrite (Hm _ _ _ E1) by discriminate; reflexivity).
+  - rewrite (Hm _ _ _ E1) by discriminate. apply (Hh _ _ _ E Hr).
+  - inversion E; subst. contradiction.
+Qed.
+Theorem target_fuel_mono fuel : forall t sc, mono (resolve fuel t sc) (resolve (S fuel) t sc).
+Proof.
+  induction fuel as [|f IH]; intros t sc.
+  - intros s r s' E Hr. cbn in E. inversion E; subst. contradiction.
+  - change (resolve (S f) t sc) with (resolve_target_set_from_expr N N_eqb SC truthy store cls_of attr_body attr_value attr_output attr_argument strip_parens
+                             supports_callee scopes_for_owner set_ctx attach_ctx ident_value (S f) t sc).
+    cbn [resolve_target_set_from_expr]. cbv zeta.
+    apply mono_bind; [apply mono_refl|]. intros seen. destruct seen; [apply mono_refl|].
+    apply mono_bind; [apply mono_refl|]. intros _.
+    assert (Hrec : forall a s0, mono (TargetGen.try_valueerror N store (TargetGen.bind N store (resolve f a s0) (fun r_ => TargetGen.ret N store (Some r_))) (TargetGen.ret N store None))
+                                     (TargetGen.try_valueerror N store (TargetGen.bind N store (resolve (S f) a s0) (fun r_ => TargetGen.ret N store (Some r_))) (TargetGen.ret N store None))).
+    { intros a s0. apply mono_try; [|apply mono_refl]. apply mono_bind; [apply IH|]. intros; apply mono_refl. }
+    apply mono_bind; [apply mono_refl|]. intros sc1.
+    destruct (cls_of t).
+    + destruct (attr_body t); [apply IH|apply mono_refl].
+    + destruct (attr_value t); [apply IH|apply mono_refl].
+    + destruct (attr_output t) as [o|]; [|apply mono_refl].
+      assert (Htail : mono (if is_cls N cls_of o CSet then TargetGen.ret N store o else TargetGen.try_valueerror N store (resolve f o sc) (TargetGen.raiseV N store))
+                           (if is_cls N cls_of o CSet then TargetGen.ret N store o else TargetGen.try_valueerror N store (resolve (S f) o sc) (TargetGen.raiseV N store))).
+      { destruct (is_cls N cls_of o CSet); [apply mono_refl|]. apply mono_try; [apply IH|apply mono_refl]. }
+      destruct (is_cls N cls_of o CCall); [|exact Htail].
+      apply mono_bind.
+      * destruct (negb (supports_callee o)); [apply mono_refl|]. destruct (attr_argument o) as [a|]; [|apply mono_refl].
+        destruct (is_cls N cls_of (strip_parens a) CIdent).
+        -- apply mono_bind; [apply mono_refl|]. intros [a2 sc2]. destruct (is_cls N cls_of (strip_parens a2) CSet); [apply mono_refl|apply Hrec].
+        -- destruct (is_cls N cls_of (strip_parens a) CSet); [apply mono_refl|apply Hrec].
+      * intros [x|]; [apply mono_refl|exact Htail].
+    + apply mono_bind; [apply mono_refl|]. intros v. destruct (attr_body t); [|apply mono_refl].
+      apply mono_bind; [apply mono_refl|]. intros _. apply IH.
+    + apply mono_bind; [apply mono_refl|]. intros [v sc2]. apply IH.
+    + destruct (attr_value t); [apply IH|apply mono_refl].
+    + apply mono_refl.
+    + apply mono_bind; [|intros; apply mono_refl].
+      destruct (negb (supports_callee t)); [apply mono_refl|]. destruct (attr_argument t) as [a|]; [|apply mono_refl].
+      destruct (is_cls N cls_of (strip_parens a) CIdent).
+      * apply mono_bind; [apply mono_refl|]. intros [a2 sc2]. destruct (is_cls N cls_of (strip_parens a2) CSet); [apply mono_refl|apply Hrec].
+      * destruct (is_cls N cls_of (strip_parens a) CSet); [apply mono_refl|apply Hrec].
+    + apply mono_refl.
+Qed.
+Theorem target_fuel_irrelevant fuel k t sc s r s' : resolve fuel t sc s = (r, s') -> r <> RFuel -> resolve (k + fuel) t sc s = (r, s').
+Proof. intros E Hr. induction k as [|k IHk]; [exact E|]. cbn [Nat.add]. apply (target_fuel_mono (k + fuel) t sc s r s' IHk Hr). Qed.
+
 (* ---- the wrappers are transparent ---- *)
 (* when no chain was handed down, entering a node asks for the node's own chain; that look-up must not raise *)
 Definition scopes_ok (t : N) (sc : option SC) (st : store) : Prop :=
@@ -380,6 +443,11 @@ Proof.
   - constructor.
   - cbn. lia.
 Qed.
+Theorem target_result_fuel_independent (w : world) fuel k t sc s r s' : target w fuel t sc s = (r, s') -> r <> RFuel -> target w (k + fuel) t sc s = (r, s').
+Proof.
+  apply (target_fuel_irrelevant (wN w) (w_eqb w) (wSC w) (w_truthy w) (w_store w) (w_cls w) (w_body w) (w_value w) (w_output w)
+    (w_argument w) (w_strip w) (w_supports w) (w_scopes w) (w_set_ctx w) (w_attach w) (w_ident_value w)).
+Qed.
 Theorem target_wrappers_transparent (w : world) ws r sc v st :
   linked (wN w) (w_cls w) (w_body w) (w_value w) ws r -> w_cls w r = CSet -> NoDup (ws ++ [r]) -> (forall x, In x (ws ++ [r]) -> ~ In x v) ->
   (forall x, In x (ws ++ [r]) -> scopes_ok (wN w) (wSC w) (w_store w) (w_scopes w) x sc st) ->
@@ -455,3 +523,4 @@ Print Assumptions target_visits_once.
 Print Assumptions target_top_is_a_set.
 Print Assumptions supports_head.
 Print Assumptions strip_not_paren.
+Print Assumptions target_result_fuel_independent.
